@@ -6,7 +6,7 @@ d = sys.argv[1].rstrip('/')
 env = dict(os.environ, GOFLAGS='-mod=mod', GOPROXY='off', GOSUMDB='off', GOTOOLCHAIN='local', CGO_ENABLED='0', MUREX_TEST_NO_HTTP='true')
 W = '/tmp/sv-' + re.sub(r'[^A-Za-z0-9]', '-', d)[-30:]
 def sh(cmd, cwd=None, timeout=1500):
-    p = subprocess.run(cmd, shell=True, cwd=cwd, env=env, capture_output=True, text=True, timeout=timeout)
+    p = subprocess.run(cmd, shell=True, cwd=cwd, env=env, capture_output=True, text=True, errors='replace', timeout=timeout)
     return p.returncode, (p.stdout + p.stderr)
 res = {}
 subprocess.run(f'git -C /repo worktree remove --force {W}', shell=True, capture_output=True)
@@ -14,7 +14,7 @@ rc, out = sh(f'git -C /repo worktree add --detach {W} HEAD')
 try:
     rc, out = sh(f'git -C {W} apply {d}/patch.diff'); res['applies'] = rc == 0
     if rc: print(out)
-    files = [l[6:].strip() for l in open(f'{d}/patch.diff') if l.startswith('+++ b/')]
+    files = [l[6:].strip() for l in open(f'{d}/patch.diff', errors='replace') if l.startswith('+++ b/')]
     pkgs = sorted({'./' + os.path.dirname(f) + '/' for f in files})
     rc, out = sh('go1.26 build ./...', cwd=W); res['builds'] = rc == 0
     if rc: print(out[-2000:])
@@ -24,13 +24,14 @@ try:
     rc, out = sh("go1.26 test -vet=off -count=1 -p 4 -skip 'TestForEachParallel|TestAspellInstalled|TestHttp' " + ' '.join(sorted(tp)), cwd=W)
     res['existing_tests_pass'] = rc == 0; res['existing_tests'] = sorted(tp)
     if rc: print(out[-3000:])
-    run = open(f'{d}/demo/RUN.md').read()
+    run = open(f'{d}/demo/RUN.md', errors='replace').read()
     demo_files = [f for f in os.listdir(f'{d}/demo') if f.endswith('.go') or f.endswith('.mx') or f.endswith('.sh')]
     placed = {}
     for m in re.finditer(r'cp\s+(\S+)\s+(\S+)', run):
         srcs, dest = m.group(1), m.group(2)
         base = os.path.basename(srcs)
-        dest = re.sub(r'^(\$W|\$WT|\$TREE|\$\{W\}|/tmp/seed-[A-Z0-9-]+)/', '', dest).rstrip('/')
+        dest = dest.strip('"')
+        dest = re.sub(r'^(\$\w+|\$\{\w+\}|W|WT|<worktree>|<tree>|/tmp/seed-[A-Z0-9-]+)/', '', dest).rstrip('/')
         if dest.endswith('.go'): dest = os.path.dirname(dest)
         for f in demo_files:
             if f == base or (('*' in base) and re.fullmatch(base.replace('.', r'\.').replace('*', '.*'), f)):
